@@ -135,10 +135,10 @@ PROPS = {
     },
     "C13": {
         "chain": [chain("signer", 32, 25, 400, 40), chain("authz", 16, 20, 200, 30), chain("all", 16, 25, 200, 40), chain("gov", 8, 20, 100, 30), chain("genesis", 8, 25, 60, 30)],
-        "pure": [{"kinds": ["ownergate"], Q: 120, T: 600}],
+        "pure": [{"kinds": ["ownergate", "ownermsg"], Q: 120, T: 600}],
         "corpus": ["witness", "regress", "known"],
         "relevant": rel_all,
-        "level_text": "Proof: c13_effect_requires_entitled_signer (for each of the message types a handler succeeds only if the account in the message's signer field is the entitled party: whitelisted purchaser, current enterprise signer, registered owner, stream sender / receiver, gov authority), c13_signer_fields (GetSigners table regenerated from the source), c13_tx_binds_signers (the composed ante chain admits a transaction only with exactly the GetSigners of its top-level messages as valid signatures), c13_nested_requires_grant_from_signer, c13_executed_messages_are_signed (every executed message of every run is signed by a key holder or the gov module), c13_params_only_by_governance. c13_owner_gate_for_any_stored_owner / c13_undecodable_owner_authorises_nobody (the owner gate in front of records and storage purchases lets an account through exactly when the stored owner string decodes to it - for any registry state, so registrations written by a genesis file with an owner that does not decode are open to nobody); the keeper function is compared with that gate on the whole table of stored spellings (canonical, upper case, foreign prefix, wrong checksum, arbitrary word, empty, absent) every run.",
+        "level_text": "Proof: c13_effect_requires_entitled_signer (for each of the message types a handler succeeds only if the account in the message's signer field is the entitled party: whitelisted purchaser, current enterprise signer, registered owner, stream sender / receiver, gov authority), c13_signer_fields (GetSigners table regenerated from the source), c13_tx_binds_signers (the composed ante chain admits a transaction only with exactly the GetSigners of its top-level messages as valid signatures), c13_nested_requires_grant_from_signer, c13_executed_messages_are_signed (every executed message of every run is signed by a key holder or the gov module), c13_params_only_by_governance. c13_owner_gate_for_any_stored_owner / c13_undecodable_owner_authorises_nobody (the owner gate in front of records and storage purchases lets an account through exactly when the stored owner string decodes to it - for any registry state, so registrations written by a genesis file with an owner that does not decode are open to nobody); c13_record_and_purchase_pass_the_owner_gate (record and purchase take effect only through that gate, any registry state); the keeper function AND the two message servers' record / purchase handlers are compared with that gate on the whole table of stored spellings (canonical, upper case, foreign prefix, wrong checksum, arbitrary word, empty, absent) every run.",
         "level_note": "Theorems are about the Lean model of the message servers, the SDK message router (ValidateBasic before every handler), authz dispatch and the composed ante chain; GetSigners fields and the decorator order are regenerated from the source every run. Signature cryptography is abstracted to a per-transaction flag (valid / wrong key / wrong sequence) that the harness realises with real secp256k1 signatures. The tie is differential: every message type x every scenario account as signer and as named address on the real app (signer focus) vs. the compiled model, with whole-state digests after every block; a rejected message leaves the state digest unchanged because both sides print it.",
         "assumptions": ["nobody holds a key for a module-account address (hash pre-image; cryptographic assumption)",
                         "delegation through authz grants given by the entitled party counts as that party's signature (DESIGN.md §8 C13)"],
@@ -221,7 +221,7 @@ PROPS = {
     },
     "C09": {
         "chain": [chain("reg", 24, 25, 300, 40), chain("signer", 16, 20, 200, 30), chain("all", 16, 25, 200, 40), chain("genesis", 8, 25, 60, 30)],
-        "pure": [{"kinds": ["ownergate"], Q: 120, T: 600}],
+        "pure": [{"kinds": ["ownergate", "ownermsg"], Q: 120, T: 600}],
         "corpus": ["witness", "regress"],
         "relevant": rel_kinds(REG_TAGS, is_reg),
         "level_text": "Proof: c09_ids_sequential_and_fields_verbatim, c09_first_id_is_genesis_start, c09_ids_never_reused, c09_registration_frozen (id/owner/moniker/name/type/genesis/regtime identical in every later state of every run), c09_only_owner_writes, c09_unknown_or_foreign_rejected.",
